@@ -557,3 +557,14 @@ func (f *Fn) paramOrResult(e ast.Expr) bool {
 	}
 	return false
 }
+
+// FnOfCallee: the repository function a call statically resolves to (generic instances map
+// to their origin), or nil.
+func (f *Fn) FnOfCallee(call *ast.CallExpr) *Fn {
+	g := f.enclosing(call)
+	o := g.Callee(call)
+	if o == nil {
+		return nil
+	}
+	return f.C.FnOfObj(o.Origin())
+}
